@@ -167,7 +167,7 @@ def read_itp_plain(path):
 
 
 def run_gen_params(workdir, ff_texts, graph=None, seq=None, seq_file_text=None, mods=None, dsdna=False,
-                   name="mol", outname="out.itp"):
+                   name="mol", outname="out.itp", lib=None, default_inpath=False):
     """Program-level run.  ff_texts = [(filename, text)].  Returns dict(exc, logs, itp_path, captured, missing_warnings)"""
     import vermouth.gmx.itp as vitp
     from polyply.src import gen_itp
@@ -197,8 +197,12 @@ def run_gen_params(workdir, ff_texts, graph=None, seq=None, seq_file_text=None, 
     try:
         with capture_logs() as logs, contextlib.redirect_stdout(io.StringIO()):
             try:
-                gen_itp.gen_params(name=name, outpath=out, inpath=paths, lib=None, seq=seq, seq_file=seq_file,
-                                   dsdna=dsdna, mods=mods or [])
+                if default_inpath:
+                    # the API's own default for inpath (a caller that only names a library)
+                    gen_itp.gen_params(name=name, outpath=out, lib=lib, seq=seq, seq_file=seq_file, dsdna=dsdna)
+                else:
+                    gen_itp.gen_params(name=name, outpath=out, inpath=paths, lib=lib, seq=seq, seq_file=seq_file,
+                                       dsdna=dsdna, mods=mods or [])
             except Exception as e:  # noqa
                 exc = e
     finally:
